@@ -28,7 +28,12 @@ static inline OperandSignature get_suitable_reg_for_mem_to_mem_move(Arch arch, T
   uint32_t max_size = Support::max<uint32_t>(dst_size, src_size);
   uint32_t reg_size = Environment::reg_size_of_arch(arch);
 
-  if (max_size <= reg_size || (TypeUtils::is_int(dst_type_id) && TypeUtils::is_int(src_type_id))) {
+  // Floating point and vector values have to go through a vector register even if they would fit into a general
+  // purpose one - `emit_arg_move()` picks the instruction (and the register group it operates on) by the type.
+  bool is_fp_or_vec = TypeUtils::is_float(dst_type_id) || TypeUtils::is_vec(dst_type_id) ||
+                      TypeUtils::is_float(src_type_id) || TypeUtils::is_vec(src_type_id);
+
+  if ((max_size <= reg_size && !is_fp_or_vec) || (TypeUtils::is_int(dst_type_id) && TypeUtils::is_int(src_type_id))) {
     signature = max_size <= 4 ? RegTraits<RegType::kGp32>::kSignature
                               : RegTraits<RegType::kGp64>::kSignature;
   }
